@@ -212,7 +212,7 @@ func treeParents(root *clipper.PolyPathBase) ([]int, clipper.Paths64) {
 }
 
 var dviApis = []string{"BooleanOpPathsD", "BooleanOpPolyTreeD", "EngineD", "InflatePathsD", "MinkowskiSumD", "MinkowskiDiffD",
-	"RectClipPathsD", "RectClipLinesPathsD", "TrimCollinearD"}
+	"RectClipPathsD", "RectClipLinesPathsD", "TrimCollinearD", "EngineDTreeOpen"}
 
 type dviIn struct {
 	a, b []decPath
@@ -270,6 +270,19 @@ func execDvi(e *DviEv, in dviIn) {
 			c6.AddPaths(a64, clipper.Subject, false)
 			c6.AddPaths(b64, clipper.Clip, false)
 			c6.Execute(ct, fr, &r64)
+		case "EngineDTreeOpen": // the first operand as OPEN subject lines, the second as clip; the open solution of the tree form
+			c := clipper.NewClipperD(p)
+			c.AddPaths(aD, clipper.Subject, true)
+			c.AddPaths(bD, clipper.Clip, false)
+			tD := clipper.NewPolyTreeD()
+			e.Ok = c.ExecutePolyTreeD(ct, fr, tD, &rD)
+			c6 := clipper.NewClipper64()
+			c6.AddPaths(a64, clipper.Subject, true)
+			c6.AddPaths(b64, clipper.Clip, false)
+			t6 := clipper.NewPolyTree64()
+			var o6 clipper.PathsD
+			c6.ExecutePolyTree64(ct, fr, t6, &o6)
+			r64 = clipper.PathsDToPaths64(o6)
 		case "BooleanOpPolyTreeD":
 			tD := clipper.BooleanOpPolyTreeD(ct, aD, bD, fr, p)
 			t6 := clipper.BooleanOpPolyTree64(ct, a64, b64, fr)
@@ -328,6 +341,9 @@ func driveDvi(r *rand.Rand, w *writer, n int) {
 	for i := 0; i < n; i++ {
 		e := &DviEv{Ev: "DvsI", Chk: chkFor("C07"), Api: dviApis[r.Intn(len(dviApis))], Ct: 1 + r.Intn(4), Fr: r.Intn(4),
 			Jt: r.Intn(4), Et: r.Intn(5), Flag: r.Intn(2) == 0}
+		if e.Api == "EngineDTreeOpen" {
+			e.Ct = 1 + r.Intn(3)
+		}
 		e.P = r.Intn(17) - 8
 		if r.Intn(12) == 0 {
 			e.P = []int{-9, 9, 12, -20}[r.Intn(4)]
